@@ -1521,3 +1521,18 @@ def expand_pure_calls(p, module, expr, depth=2):
             return X(self.d - 1).visit(e) if r else e
 
     return X(depth).visit(_copy(expr))
+
+
+def inlined_view(p, f, prefix=None, depth=2):
+    """f as it runs: straight-line helpers it calls (local ones, and module-level functions of the project below package
+    `prefix`) are written out in place.  A registered Func copy; cached per project."""
+    from sa.core import Func
+
+    cache = p.__dict__.setdefault("_inlined_views", {})
+    key = (f.qualname, prefix, depth)
+    if key not in cache:
+        node = inline_lexical_helpers(f.node, depth=depth, resolver=project_resolver(p, f.module, prefix))
+        g = Func(qualname=f.qualname, module=f.module, node=node, cls=f.cls, parent=f.parent)
+        p.func_of_node[id(node)] = g
+        cache[key] = g
+    return cache[key]
